@@ -366,6 +366,65 @@ def run_columns(rep, rng, n):
                 rep.property_failure(case, "Column.validate: validating the returned frame again changes it")
 
 
+def column_parser_sweep(rep, rng, n):
+    """parsing steps that exist at component level only — idempotent custom parsers of a column / an index, defaults of
+    regex-selected columns — inside a DataFrameSchema: the returned frame holds the parsed values, passes the schema without
+    the parsing options, and validating it again returns it unchanged"""
+    import pandas as pd
+    import pandera as pa
+    parsers = {"strip": (lambda s_: s_.str.strip(), "str"), "abs": (lambda s_: s_.abs(), "num"), "clip": (lambda s_: s_.clip(0, 5), "num"),
+               "upper": (lambda s_: s_.str.upper(), "str")}
+    for _ in range(n):
+        m = rng.randint(1, 5)
+        pname = rng.choice(sorted(parsers))
+        fn, kind = parsers[pname]
+        if kind == "str":
+            raw = [rng.choice([" a", "b ", "a", " b "]) for _ in range(m)]
+            chk = pa.Check.isin(["a", "b"]) if pname == "strip" else pa.Check.isin([" A", "B ", "A", " B "])
+            dt = str
+        else:
+            raw = [rng.choice([-3, -1, 0, 2, 4, 7]) for _ in range(m)]
+            chk = pa.Check.ge(0) if pname == "abs" else pa.Check.in_range(0, 5)
+            dt = int
+        other = [float("nan") if rng.random() < 0.4 else float(rng.randint(0, 3)) for _ in range(m)]
+        lazy = rng.random() < 0.5
+        mk = lambda parsing: pa.DataFrameSchema({  # noqa: E731
+            "code": pa.Column(dt, checks=chk, parsers=pa.Parser(fn) if parsing else None),
+            "^x_": pa.Column(float, regex=True, nullable=not parsing, default=1.5 if parsing else None)})
+        df = pd.DataFrame({"code": raw, "x_1": other, "x_2": list(reversed(other))}, index=[f"r{i}" for i in range(m)])
+        case = {"mode": "column-parser", "parser": pname, "code": raw, "x": [None if v != v else v for v in other], "lazy": lazy}
+        with warnings.catch_warnings():
+            warnings.simplefilter("ignore")
+            try:
+                out = mk(True).validate(df.copy(), lazy=lazy)
+            except Exception as e:  # noqa: BLE001
+                rep.property_failure(case, f"DataFrameSchema with a column parser ({pname}) and regex defaults raised "
+                                           f"{type(e).__name__}: {str(e)[:100]}")
+                continue
+            rep.case(case, nontrivial=True)
+            rep.evaluations += 1
+            rep.count("column-parser:" + pname)
+            want = df.copy()
+            want["code"] = fn(want["code"])
+            want[["x_1", "x_2"]] = want[["x_1", "x_2"]].fillna(1.5)
+            if not out.equals(want):
+                rep.property_failure(case, f"the returned frame is not the parsed data: code {out['code'].tolist()} "
+                                           f"(parsed: {want['code'].tolist()}), x_1 {out['x_1'].tolist()}")
+                continue
+            try:
+                mk(False).validate(out.copy(), lazy=True)
+            except Exception as e:  # noqa: BLE001
+                rep.property_failure(case, f"the returned frame does not conform to the schema without its parsing options "
+                                           f"({type(e).__name__})")
+                continue
+            try:
+                again = mk(True).validate(out.copy(), lazy=lazy)
+                if not again.equals(out):
+                    rep.property_failure(case, "validating the returned frame again changes it")
+            except Exception as e:  # noqa: BLE001
+                rep.property_failure(case, f"validating the returned frame again raises {type(e).__name__}")
+
+
 def run_polars(rep, rng, n):
     try:
         import polars as pl  # noqa: F401
@@ -490,13 +549,16 @@ def run(tier, replay=None):
     rng = rng_for(PROP)
     if replay:
         case = json.loads(open(replay).read())["case"]
-        if "schema" in case and case.get("backend") != "polars":
+        if case.get("mode") == "column-parser":
+            column_parser_sweep(rep, rng_for(PROP, "column-parser"), 200)
+        elif "schema" in case and case.get("backend") != "polars":
             run_cases(rep, [case])
         return rep.finish(rule="replay")
     n = 1000 if tier == "quick" else 25000
     run_cases(rep, [c for c in corpus_cases(PROP) if "schema" in c] + [gen_case(rng) for _ in range(n)])
     run_series(rep, rng, n // 4)
     run_columns(rep, rng, n // 3)
+    column_parser_sweep(rep, rng_for(PROP, "column-parser"), n // 5)
     run_polars(rep, rng, n // 4)
     return rep.finish(
         rule="C01's generator plus every subset of {column/frame/index coercion (int64, float64, str targets from "
